@@ -25,13 +25,16 @@ def Model.users (M : Model) (j : Nat) : List Name := M.order.filter fun v => (M.
 /-- `u_j` is private: read by exactly one observed variable -/
 def Model.isPriv (M : Model) (j : Nat) : Bool := (M.users j).length == 1
 
-/-- cardinalities of the induced model: observed names keep theirs, the latent `base + j` has `|noise[j]|` values -/
+/-- cardinalities of the induced model: observed names keep theirs, the latent `base + j` has `|noise[j]|` values
+(names beyond the noise: 1, so that every name has a value) -/
 def Model.cardS (M : Model) (card : Name → Nat) (base : Nat) : Name → Nat :=
-  fun n => if n < base then card n else (M.noise.getD (n - base) []).length
+  fun n => if n < base then card n
+    else if n - base < M.noise.length then (M.noise.getD (n - base) []).length else 1
 
-/-- `P(u_{n - base} = k)` -/
+/-- `P(u_{n - base} = k)`; 1 for `k` outside the range (never summed over; `Scm.Compatible` wants positivity at every
+valuation) -/
 def Model.priorS (M : Model) (base : Nat) : Name → Nat → Rat :=
-  fun n k => (M.noise.getD (n - base) []).getD k 0
+  fun n k => (M.noise.getD (n - base) []).getD k 1
 
 /-- names of the exogenous variables private to `v` -/
 def Model.privOf (M : Model) (base : Nat) (v : Name) : List Name := ((M.lat v).filter M.isPriv).map (base + ·)
@@ -40,10 +43,13 @@ def Model.privOf (M : Model) (base : Nat) (v : Name) : List Name := ((M.lat v).f
 def Model.eqn (M : Model) (base : Nat) (v : Name) (τ : Val) : Rat :=
   if M.f v ((M.pa v).map τ) ((M.lat v).map fun j => τ (base + j)) = τ v then 1 else 0
 
-/-- `P(v = σ v | pa, shared latents)`: the private noise of `v` summed out (pushed forward through `f_v`) -/
+/-- `P(v = σ v | pa, shared latents)`: the private noise of `v` summed out (pushed forward through `f_v`); 1 when `σ v`
+is not a value of `v` (never summed over; `Scm.Compatible` wants positivity at every valuation) -/
 def Model.kernOf (M : Model) (card : Name → Nat) (base : Nat) (v : Name) : Val → Rat :=
-  sumVars (M.cardS card base) (M.privOf base v)
-    (fun τ => ((M.privOf base v).map fun n => M.priorS base n (τ n)).prod * M.eqn base v τ)
+  fun σ => if σ v < card v then
+    sumVars (M.cardS card base) (M.privOf base v)
+      (fun τ => ((M.privOf base v).map fun n => M.priorS base n (τ n)).prod * M.eqn base v τ) σ
+  else 1
 
 /-- **the induced semi-Markovian model** -/
 def Model.toScm (M : Model) (card : Name → Nat) (base : Nat) : Scm :=
